@@ -146,6 +146,20 @@ asn1c_read_file_dependencies(arg_t *arg, const char *datadir) {
         }
     }
 
+    /*
+     * The files which are always included (COMMON-FILES) should bring in
+     * what depends on them, such as OCTET_STRING.h -> OCTET_STRING_oer.c.
+     */
+    for(size_t i = 0; i < deps->chains_count; i++) {
+        asn1c_tagged_dep_chain *ch = deps->chains[i];
+        if(ch->activated.active && !ch->activated.by) {
+            for(size_t j = 0; j < ch->chain->deps_count; j++) {
+                asn1c_activate_dependency(deps, ch->chain->deps[j]->filename,
+                                          "common");
+            }
+        }
+    }
+
 	return deps;
 }
 
